@@ -179,7 +179,17 @@ static uint8_t *abuf(size_t n, unsigned off)
         memset(p, 0xEE, n + 128);
         return p + off;
 }
-#define AFREE(p, off) do { if (guard_mode) guard_free(p); else free((p) - (off)); } while (0)
+#define AFREE(p, off) do { if (arena_owns(p)) arena_release(); else if (guard_mode) guard_free(p); else free((p) - (off)); } while (0)
+/* data buffer: like abuf, but one time in eight (outside guard mode) placed across the 4 GiB boundary of the arena */
+static rng_t *abuf_rng;
+static uint8_t *abuf_data(size_t n, unsigned off)
+{
+        if (!guard_mode && abuf_rng && rng_below(abuf_rng, 8) == 0) {
+                uint8_t *p = arena_straddle(abuf_rng, n + 1, off ? 1 : 64);
+                if (p) { memset(p - 64, 0xEE, n + 192); return p; }
+        }
+        return abuf(n, off);
+}
 
 static int gcm_sweep; static unsigned sweep_idx;
 static uint32_t pick_len(rng_t *r, uint32_t maxlen, uint32_t unit)
@@ -247,6 +257,8 @@ int main(int argc, char **argv)
         rng_seed(&R, seed);
         tramp_setup();
         guard_setup();
+        arena_setup();
+        abuf_rng = &R;
         gcm_sweep = getenv("VERIF_GCM_SWEEP") ? atoi(getenv("VERIF_GCM_SWEEP")) : 0;
         guard_out = fr;
         sens_out = fr;
@@ -377,7 +389,7 @@ int main(int argc, char **argv)
                                         uint64_t dseed = rng_u64(&R) | 1;
                                         unsigned ioff = G->nt ? 0 : rng_below(&R, 64), ooff = G->nt ? 0 : rng_below(&R, 64);
                                         int inplace = rng_below(&R, 2);
-                                        uint8_t *in = abuf(len, ioff), *out = inplace ? in : abuf(len, ooff);
+                                        uint8_t *in = abuf_data(len, ioff), *out = inplace ? in : abuf_data(len, ooff);
                                         xs_bytes(dseed, in, len);
                                         uint8_t *ref = malloc(len + 16), *inc = malloc(len + 16);
                                         memcpy(inc, in, len);
@@ -422,7 +434,7 @@ int main(int argc, char **argv)
                                                 uint64_t dseed = rng_u64(&R) | 1;
                                                 unsigned ioff = G->nt ? 0 : rng_below(&R, 64), ooff = G->nt ? 0 : rng_below(&R, 64);
                                                 int inplace = rng_below(&R, 2);
-                                                uint8_t *in = abuf(len, ioff), *out = inplace ? in : abuf(len, ooff);
+                                                uint8_t *in = abuf_data(len, ioff), *out = inplace ? in : abuf_data(len, ooff);
                                                 xs_bytes(dseed, in, len);
                                                 while (total + len > cap) { cap *= 2; allin = realloc(allin, cap); allout = realloc(allout, cap); }
                                                 memcpy(allin + total, in, len);
@@ -471,7 +483,7 @@ int main(int argc, char **argv)
                         uint8_t *k1 = abuf(32, o1), *k2 = abuf(32, o2), *tw = abuf(16, o3);
                         xs_bytes(k1s, k1, n); xs_bytes(k2s, k2, n); xs_bytes(tws, tw, 16);
                         int inplace = rng_below(&R, 2);
-                        uint8_t *in = abuf(len, oi), *out = inplace ? in : abuf(len, oo);
+                        uint8_t *in = abuf_data(len, oi), *out = inplace ? in : abuf_data(len, oo);
                         xs_bytes(ds, in, len);
                         uint8_t *inc = malloc(len + 16), *ref = malloc(len + 16);
                         memcpy(inc, in, len);
@@ -528,7 +540,7 @@ int main(int argc, char **argv)
                         xs_bytes(ivs, iv, 16);
                         unsigned oi = rng_below(&R, 64), oo = rng_below(&R, 64);
                         int inplace = rng_below(&R, 2);
-                        uint8_t *in = abuf(len, oi), *out = inplace ? in : abuf(len, oo);
+                        uint8_t *in = abuf_data(len, oi), *out = inplace ? in : abuf_data(len, oo);
                         xs_bytes(ds, in, len);
                         uint8_t *inc = malloc(len + 32), *ref = malloc(len + 32);
                         memcpy(inc, in, len);
